@@ -13,7 +13,7 @@ def gen_source(fields):
     for i, f in enumerate(fields):
         if f[3] == 'blob':
             setters.append('    case %d: break; /* %s: aggregate, not set */' % (i, f[1]))
-            dumps.append('    printf(" 0");')
+            dumps.append('    { const unsigned char *b = (const unsigned char *)&%s; unsigned long long hh = 1469598103934665603ULL; int allz = 1; for (size_t i = 0; i < sizeof(%s); i++) { hh = (hh ^ b[i]) * 1099511628211ULL; if (b[i]) allz = 0; } printf(" %%llu", allz ? 0ULL : (hh >> 2) | 1ULL); }' % (c_lvalue(f), c_lvalue(f)))
             continue
         if f[3] == 'ptr':
             setters.append('    case %d: %s = (void *)(uintptr_t)v; break;' % (i, c_lvalue(f)))
